@@ -48,7 +48,8 @@ func hashTree(dir string) (string, []string) {
 func mdWrap(rng *rand.Rand, text string) (string, string) {
 	// prose never contains three back-quotes in a row, never starts or ends with a back-quote
 	// and is never empty between two fences (adjacent fences are outside the property's domain)
-	proseBits := []string{"# Grammar\n", "Some *prose* here.\n", "é日本 text with ``two`` ticks and `one` tick\n", " \r\n", "line one\nline two\n\n", "tab\there; a : 'b' ; looks like code but is prose\n", " "}
+	proseBits := []string{"# Grammar\n", "Some *prose* here.\n", "é日本 text with ``two`` ticks and `one` tick\n", " \r\n", "line one\nline two\n\n", "tab\there; a : 'b' ; looks like code but is prose\n", " ",
+		"~~~\nnot a fence: only three back-quotes are\n~~~\n", "a ~~~ b and --- and === and ***\n", "    indented four blanks: still prose\n"}
 	lines := strings.SplitAfter(text, "\n")
 	nb := 1 + rng.Intn(4)
 	if nb > len(lines) {
